@@ -74,6 +74,14 @@ Theorem grpc_filter_iff : forall cl sv l,
 Proof. exact grpc_filter_iff_proof. Qed.
 Print Assumptions grpc_filter_iff.
 
+(* ... and a variant is the original except for the name: every request field, the alternative error
+   codes, the expected response and the expand directives are the original's (for ANY input list) *)
+Theorem grpc_variant_is_original_but_name : forall cl sv l q,
+  cl = true \/ sv = true -> In q (grpc_filter cl sv l) ->
+  exists p, In p l /\ p_name q = add_marker (p_name p) (p_simple p) cl sv /\ same_but_name p q.
+Proof. exact grpc_variant_is_original_but_name_proof. Qed.
+Print Assumptions grpc_variant_is_original_but_name.
+
 Theorem marker_name : forall cl sv p pre,
   p_name p = pre ++ p_simple p ->
   p_name (rename cl sv p) = pre ++ spec_marker cl sv ++ 47 :: p_simple p /\
@@ -89,6 +97,20 @@ Theorem all_permutations_members : forall cl sv order q,
     \/ (cl = true /\ sv = true /\ In q (grpc_filter true true order)).
 Proof. exact all_permutations_proof. Qed.
 Print Assumptions all_permutations_members.
+
+(* every run the library hands out is a permutation of it or such a permutation under a marked name *)
+Theorem all_permutations_variants : forall cl sv order q,
+  In q (all_permutations cl sv order) ->
+  In q order \/ exists p, In p order /\ same_but_name p q /\
+     exists cl' sv', (cl' = true \/ sv' = true) /\ p_name q = add_marker (p_name p) (p_simple p) cl' sv'.
+Proof. exact all_permutations_variants_proof. Qed.
+Print Assumptions all_permutations_variants.
+
+(* the fields of a test case besides the request are carried into each of its permutations as written *)
+Theorem permutation_carries_extras : forall ss cs mode L, new_library ss cs mode = Ok L ->
+  forall p, In p L -> exists s t, In s ss /\ In t (s_cases s) /\ p_simple p = t_name t /\ p_extras p = t_extras t.
+Proof. exact permutation_carries_extras_proof. Qed.
+Print Assumptions permutation_carries_extras.
 
 (* a library is built exactly when: every suite is named and non-empty, suite names are distinct,
    every suite the mode admits is consistently configured and its test cases are named, typed and
@@ -220,7 +242,7 @@ Proof. exact groups_stable_proof. Qed.
 Print Assumptions groups_stable.
 
 (* ---- non-vacuity ---- *)
-Definition ex_tc := mkT (bs "unary/success") 1 [] [] false false.
+Definition ex_tc := mkT (bs "unary/success") 1 [] [] false false no_extras.
 Definition ex_suite := mkSuite (bs "Basic") 0 [] [2] [1] [] 0 false false false false [ex_tc].
 Definition ex_cases :=
   [ mkCase 2 1 1 1 1 false false false false 0; mkCase 2 2 1 2 1 true false false false 0;
@@ -254,7 +276,7 @@ Example ex_same_name_different_mode :
 Proof. vm_compute. reflexivity. Qed.
 Example ex_equal_names_across_stream_types :
   new_library [mkSuite (bs "S") 0 [] [2] [1] [] 0 false false false false
-                 [mkT (bs "t") 1 [] [] false false; mkT (bs "t") 3 [] [] false false]] ex_cases 1 = Err.
+                 [mkT (bs "t") 1 [] [] false false no_extras; mkT (bs "t") 3 [] [] false false no_extras]] ex_cases 1 = Err.
 Proof. vm_compute. reflexivity. Qed.
 Example ex_repeated_relevant_value :
   new_library [mkSuite (bs "S") 0 [1; 1] [2] [1] [] 0 false false false false [ex_tc]] ex_cases 1 = Err.
@@ -272,9 +294,14 @@ Example ex_grpc_none :
 Proof. vm_compute. reflexivity. Qed.
 Example ex_grpc_some :
   map p_name (grpc_filter false true
-    [mkPerm (bs "S/TLS:false/t") (bs "t") 2 3 1 2 1 [] false [] [] 0 false false]) = [bs "S/TLS:false/(grpc server impl)/t"].
+    [mkPerm (bs "S/TLS:false/t") (bs "t") 2 3 1 2 1 [] false [] [] 0 false false no_extras]) = [bs "S/TLS:false/(grpc server impl)/t"].
 Proof. vm_compute. reflexivity. Qed.
-Example ex_applicable : grpc_applicable false true (mkPerm (bs "S/TLS:false/t") (bs "t") 2 3 1 2 1 [] false [] [] 0 false false).
+Example ex_variant_keeps_other_codes :
+  map (fun q => x_other (p_extras q))
+      (grpc_filter false true [mkPerm (bs "S/TLS:false/t") (bs "t") 2 3 1 2 1 [] false [] [] 0 false false
+                                      (mkX [13; 2] [7] (Some (bs "e")))]) = [[13; 2]].
+Proof. vm_compute. reflexivity. Qed.
+Example ex_applicable : grpc_applicable false true (mkPerm (bs "S/TLS:false/t") (bs "t") 2 3 1 2 1 [] false [] [] 0 false false no_extras).
 Proof. unfold grpc_applicable; simpl. intuition congruence. Qed.
 
 (* ---- names: well-formedness is inhabited by the shipped style of names; the hostile classes ---- *)
@@ -294,15 +321,15 @@ Proof. vm_compute. reflexivity. Qed.
 Definition ex_fixed (name : bytes) (tcs : list tcase) := mkSuite name 0 [1] [2] [1] [1] 0 true false false false tcs.
 Definition ex_tls_case := mkCase 2 1 1 1 1 true false false false 0.
 Example ex_dot_segment_rejected :
-  spec_name (ex_fixed (bs "S") []) ex_tls_case (mkT (bs "t") 1 [] [] false false) =
-  spec_name (ex_fixed (bs "S") []) ex_tls_case (mkT (bs "./t") 1 [] [] false false) /\
-  new_library [ex_fixed (bs "S") [mkT (bs "t") 1 [] [] false false; mkT (bs "./t") 1 [] [] false false]] [ex_tls_case] 1 = Err /\
-  new_library [ex_fixed (bs "S") [mkT (bs "t") 1 [] [] false false; mkT (bs "x/../t") 1 [] [] false false]] [ex_tls_case] 1 = Err.
+  spec_name (ex_fixed (bs "S") []) ex_tls_case (mkT (bs "t") 1 [] [] false false no_extras) =
+  spec_name (ex_fixed (bs "S") []) ex_tls_case (mkT (bs "./t") 1 [] [] false false no_extras) /\
+  new_library [ex_fixed (bs "S") [mkT (bs "t") 1 [] [] false false no_extras; mkT (bs "./t") 1 [] [] false false no_extras]] [ex_tls_case] 1 = Err /\
+  new_library [ex_fixed (bs "S") [mkT (bs "t") 1 [] [] false false no_extras; mkT (bs "x/../t") 1 [] [] false false no_extras]] [ex_tls_case] 1 = Err.
 Proof. vm_compute. repeat split. Qed.
 Example ex_slash_in_suite_name_rejected :
-  new_library [ex_fixed (bs "A") [mkT (bs "b/c") 1 [] [] false false]; ex_fixed (bs "A/b") [mkT (bs "c") 1 [] [] false false]] [ex_tls_case] 1 = Err /\
-  (exists lib, new_library [ex_fixed (bs "A") [mkT (bs "b/c") 1 [] [] false false]] [ex_tls_case] 1 = Ok lib) /\
-  (exists lib, new_library [ex_fixed (bs "A/b") [mkT (bs "c") 1 [] [] false false]] [ex_tls_case] 1 = Ok lib).
+  new_library [ex_fixed (bs "A") [mkT (bs "b/c") 1 [] [] false false no_extras]; ex_fixed (bs "A/b") [mkT (bs "c") 1 [] [] false false no_extras]] [ex_tls_case] 1 = Err /\
+  (exists lib, new_library [ex_fixed (bs "A") [mkT (bs "b/c") 1 [] [] false false no_extras]] [ex_tls_case] 1 = Ok lib) /\
+  (exists lib, new_library [ex_fixed (bs "A/b") [mkT (bs "c") 1 [] [] false false no_extras]] [ex_tls_case] 1 = Ok lib).
 Proof. vm_compute. repeat split; eexists; reflexivity. Qed.
 
 (* the one collision class that is NOT rejected: a test-name (or suite-name) segment that is a gRPC
@@ -310,7 +337,7 @@ Proof. vm_compute. repeat split; eexists; reflexivity. Qed.
    "S/TLS:false/t" against the gRPC server is the name "S/TLS:false/(grpc server impl)/t" of another
    permutation.  The c07.lib cases carry the number of names issued twice; see the notes. *)
 Definition ex_marker_suite := mkSuite (bs "S") 0 [2] [2] [1] [1] 0 false false false false
-  [mkT (bs "t") 1 [] [] false false; mkT (bs "(grpc server impl)/t") 1 [] [] false false].
+  [mkT (bs "t") 1 [] [] false false no_extras; mkT (bs "(grpc server impl)/t") 1 [] [] false false no_extras].
 Example ex_marker_collision_not_rejected :
   match new_library [ex_marker_suite] [mkCase 2 2 1 1 1 false false false false 0] 1 with
   | Ok lib => NoDup (map p_name lib) /\ dup_count (map p_name (all_permutations false true lib)) = 1%nat /\
@@ -325,9 +352,9 @@ Proof.
 Qed.
 
 (* output order: the lists differ between two visiting orders, the sets do not *)
-Definition ex_p1 := mkPerm (bs "S/a") (bs "a") 1 1 1 1 1 [] false [] [] 0 false false.
-Definition ex_p2 := mkPerm (bs "S/b") (bs "b") 2 1 1 1 1 [] false [] [] 0 false false.
-Definition ex_p3 := mkPerm (bs "S/c") (bs "c") 2 1 1 1 1 [] false [] [] 0 false false.
+Definition ex_p1 := mkPerm (bs "S/a") (bs "a") 1 1 1 1 1 [] false [] [] 0 false false no_extras.
+Definition ex_p2 := mkPerm (bs "S/b") (bs "b") 2 1 1 1 1 [] false [] [] 0 false false no_extras.
+Definition ex_p3 := mkPerm (bs "S/c") (bs "c") 2 1 1 1 1 [] false [] [] 0 false false no_extras.
 Example ex_order_shows :
   all_permutations false false [ex_p1; ex_p2] <> all_permutations false false [ex_p2; ex_p1] /\
   map fst (group_cases [ex_p1; ex_p2]) <> map fst (group_cases [ex_p2; ex_p1]) /\
